@@ -15,6 +15,8 @@ import (
 	"testing"
 	"time"
 
+	"github.com/piotrnar/gocoin/client/common"
+	"github.com/piotrnar/gocoin/client/wallet"
 	"github.com/piotrnar/gocoin/lib/btc"
 	"github.com/piotrnar/gocoin/lib/utxo"
 
@@ -71,6 +73,8 @@ type Cfg struct {
 	MaxConsec      int             `json:"max_consec"`
 	SchedSeed      uint64          `json:"sched_seed"`
 	CrashPoints    int             `json:"crash_points"` // C07: 0 = default subset, -1 = every effect
+	WalletMinVal   uint64          `json:"wallet_min_val"` // C17
+	WalletUseMap   uint32          `json:"wallet_use_map_cnt"`
 }
 
 type Op struct {
@@ -177,6 +181,10 @@ func (H) Gen(prop string, seed uint64, tier string) *hx.Case {
 	cfg.YieldP = []float64{0, 0.02, 0.1, 0.3}[r.Intn(4)]
 	if r.Chance(0.3) {
 		cfg.TimerP = 0.05
+	}
+	if prop == "C17" {
+		cfg.WalletMinVal = []uint64{0, 1000, 500000000, 1500000000, 2500000000}[r.Intn(5)]
+		cfg.WalletUseMap = uint32(r.Range(2, 6))
 	}
 	if prop == "C07" {
 		cfg.CrashPoints = 14
@@ -363,6 +371,12 @@ func (H) Gen(prop string, seed uint64, tier string) *hx.Case {
 			}
 			continue
 		}
+		if prop == "C17" && r.Chance(0.08) {
+			add(Op{Op: "wallet_off"})
+			if r.Chance(0.7) {
+				add(Op{Op: "wallet_on"})
+			}
+		}
 		switch r.Pick(60, 15, 10, 8, 7) {
 		case 1:
 			add(Op{Op: "idle"})
@@ -461,6 +475,7 @@ type run struct {
 	lastSaveHeight uint32
 	failedReorg bool
 	hookLog     []hookEvent
+	everPaid    map[string]bool
 	delivAt     map[[32]byte]int // effect-log length when the block was first handed to the node
 	delivOrder  []int
 	isPrefix    map[[32]byte]bool
@@ -519,6 +534,9 @@ func (r *run) compareState(when string) {
 }
 
 func (r *run) compareUTXO(when string) {
+	if r.prop == "C17" {
+		defer r.compareWallet(when)
+	}
 	got := r.n.Dump()
 	want := r.model.UTXO()
 	if d := diffUTXO(got, want); d != "" {
@@ -769,7 +787,7 @@ func (H) Run(t *testing.T, c *hx.Case) *hx.Outcome {
 	os.Remove(filepath.Join(dir, "ok"))
 	simos.Reset(dir)
 
-	r := &run{prop: prop, cfg: cfg, out: out, dir: dir, status: map[[32]byte]int{}, waiting: map[[32]byte][]int{}}
+	r := &run{prop: prop, cfg: cfg, out: out, dir: dir, status: map[[32]byte]int{}, waiting: map[[32]byte][]int{}, everPaid: map[string]bool{}}
 	var tip *ledger.Node
 	r.l, tip = newLedger(cfg)
 	r.model = tip
@@ -813,6 +831,17 @@ func (H) Run(t *testing.T, c *hx.Case) *hx.Outcome {
 				if r.n.Ch.Unspent.Save() {
 					r.out.Probe("explicit_save", 1)
 					r.lastSaveHeight = r.model.Height
+				}
+			case "wallet_off":
+				if r.prop == "C17" {
+					wallet.Disable()
+					r.out.Probe("index_switched_off", 1)
+				}
+			case "wallet_on":
+				if r.prop == "C17" {
+					wallet.LoadBalancesFromUtxo()
+					r.out.Probe("index_built_from_populated_set", 1)
+					r.compareWallet(when)
 				}
 			case "hurryup":
 				r.n.Ch.Unspent.HurryUp()
@@ -884,6 +913,17 @@ func (r *run) boot() {
 	utxo.UTXO_SKIP_SAVE_BLOCKS = cfg.SkipSave
 	r.n = Boot(r.dir, NodeOpts{P: cfg.P, Genesis: cfg.genesis(), CompressBlocks: cfg.CompressBlocks, CacheBlocks: cfg.CacheBlocks,
 		MaxFileSize: uint64(cfg.MaxFileKB) << 10, ClientRecovery: cfg.ClientRecovery, LibraryTail: cfg.Testnet4})
+	if r.prop == "C17" {
+		common.BlockChain = r.n.Ch
+		common.GocoinHomeDir = r.dir + "/"
+		common.Testnet = cfg.Testnet
+		common.CFG.Testnet = cfg.Testnet
+		common.CFG.AllBalances.MinValue = cfg.WalletMinVal
+		common.CFG.AllBalances.UseMapCnt = cfg.WalletUseMap
+		common.Set(&common.WalletON, false)
+		wallet.FetchingBalanceTick = nil
+		wallet.LoadBalancesFromUtxo() // as the client does after opening the chain: builds the index and installs the callbacks
+	}
 }
 
 func (r *run) sample(ops []*Op) any {
@@ -1011,4 +1051,111 @@ func (r *run) drainHooks() {
 			r.viol(e.class, "%s", e.msg)
 		}
 	}
+}
+
+// ---------------------------------------------------------------- C17: balance index
+
+type wout struct {
+	op       ledger.OutPoint
+	value    uint64
+	height   uint32
+	coinbase bool
+}
+
+func indexedType(pk []byte) int {
+	switch {
+	case len(pk) == 25 && pk[0] == 0x76 && pk[1] == 0xa9 && pk[2] == 0x14 && pk[23] == 0x88 && pk[24] == 0xac:
+		return 0
+	case len(pk) == 23 && pk[0] == 0xa9 && pk[1] == 0x14 && pk[22] == 0x87:
+		return 1
+	case len(pk) == 22 && pk[0] == 0 && pk[1] == 0x14:
+		return 2
+	case len(pk) == 34 && pk[0] == 0 && pk[1] == 0x20:
+		return 3
+	case len(pk) == 34 && pk[0] == 0x51 && pk[1] == 0x20:
+		return 4
+	}
+	return -1
+}
+
+// compareWallet: for every address ever paid, the index's list and total equal the projection of the unspent set.
+func (r *run) compareWallet(when string) {
+	if r.bad || !common.Get(&common.WalletON) {
+		return
+	}
+	minv := r.cfg.WalletMinVal
+	want := map[string][]wout{}
+	var typeCnt, typeRecs [5]int
+	var typeVal [5]uint64
+	for op, c := range r.model.UTXO() {
+		t := indexedType(c.Pk)
+		if t < 0 || c.Value < minv {
+			continue
+		}
+		k := string(c.Pk)
+		if len(want[k]) == 0 {
+			typeRecs[t]++
+		}
+		want[k] = append(want[k], wout{op, c.Value, c.Height, c.Coinbase})
+		typeCnt[t]++
+		typeVal[t] += c.Value
+	}
+	// every script the generator may ever have paid to
+	scripts := map[string]bool{}
+	for k := range want {
+		scripts[k] = true
+	}
+	for k := range r.everPaid {
+		scripts[k] = true
+	}
+	for k := range scripts {
+		r.everPaid[k] = true
+		pk := []byte(k)
+		ad := btc.NewAddrFromPkScript(pk, r.cfg.Testnet)
+		if ad == nil {
+			continue
+		}
+		got := wallet.GetAllUnspent(ad)
+		w := want[k]
+		gm := map[ledger.OutPoint]*wout{}
+		for _, u := range got {
+			op := ledger.OutPoint{Hash: u.TxPrevOut.Hash, N: u.TxPrevOut.Vout}
+			if gm[op] != nil {
+				r.viol("wallet.duplicate", "%s: address %s lists output %s:%d twice", when, ad.String(), hs(op.Hash), op.N)
+				return
+			}
+			gm[op] = &wout{op, u.Value, u.MinedAt, u.Coinbase}
+		}
+		for _, x := range w {
+			g := gm[x.op]
+			if g == nil {
+				r.viol("wallet.missing", "%s: address %s (script %x): unspent output %s:%d of %d sat (height %d) is in the unspent set but not in the balance index (index lists %d outputs, %d expected; min value %d)", when, ad.String(), pk, hs(x.op.Hash), x.op.N, x.value, x.height, len(got), len(w), minv)
+				return
+			}
+			if g.value != x.value || g.height != x.height || g.coinbase != x.coinbase {
+				r.viol("wallet.fields", "%s: address %s: output %s:%d listed with value=%d height=%d coinbase=%v, the unspent set has value=%d height=%d coinbase=%v", when, ad.String(), hs(x.op.Hash), x.op.N, g.value, g.height, g.coinbase, x.value, x.height, x.coinbase)
+				return
+			}
+			delete(gm, x.op)
+		}
+		for op, g := range gm {
+			r.viol("wallet.extra", "%s: address %s: the balance index lists %s:%d (%d sat) which is not (any more) an unspent output paying to it at or above the minimum value %d", when, ad.String(), hs(op.Hash), op.N, g.value, minv)
+			return
+		}
+	}
+	// totals and record counts per address type
+	var gotCnt, gotRecs [5]int
+	var gotVal [5]uint64
+	wallet.Browse(func(t int, h wallet.OneAddrIndex, coins *wallet.OneAllAddrBal) {
+		gotRecs[t]++
+		gotCnt[t] += coins.Count()
+		gotVal[t] += coins.Value
+	})
+	for t := 0; t < 5; t++ {
+		if gotRecs[t] != typeRecs[t] || gotCnt[t] != typeCnt[t] || gotVal[t] != typeVal[t] {
+			r.viol("wallet.totals", "%s: address type %s: the index holds %d addresses / %d outputs / %d sat in total, the unspent set projects to %d addresses / %d outputs / %d sat (min value %d)", when, wallet.IDX2SYMB[t], gotRecs[t], gotCnt[t], gotVal[t], typeRecs[t], typeCnt[t], typeVal[t], minv)
+			return
+		}
+	}
+	r.out.Probe("wallet_compared", 1)
 }
